@@ -593,6 +593,13 @@ func (c *Compiler) compileSwitch(node *ast.Switch) error {
 
 	choices := node.Choices()
 
+	// While the cases are compiled the switch value stays on the stack: a
+	// break or continue of an enclosing loop inside a case has to pop it.
+	if loop := c.currentLoop(); loop != nil {
+		loop.pending++
+		defer func() { loop.pending-- }()
+	}
+
 	// Emit jump positions for each case
 	var caseJumpPositions []int
 	defaultJumpPos := -1
@@ -1274,6 +1281,10 @@ func (c *Compiler) compileControl(node *ast.Control) error {
 			return c.formatError("invalid break statement outside of a loop", node.Token().StartPosition)
 		}
 		return c.formatError("invalid continue statement outside of a loop", node.Token().StartPosition)
+	}
+	// Discard the values that enclosing switch statements keep on the stack
+	for i := 0; i < loop.pending; i++ {
+		c.emit(op.PopTop)
 	}
 	if literal == "break" {
 		// When breaking from a for-range loop, we need to pop the iterator from the stack
